@@ -220,6 +220,14 @@ type outcome struct {
 	known      map[string]bool
 	passed     int64
 	broken     []string // inconclusive reasons
+	lastRun    map[string]map[string]any // per process label: how it was started (for panic reports)
+}
+
+func (o *outcome) noteRun(label string, args map[string]any) {
+	if o.lastRun == nil {
+		o.lastRun = map[string]map[string]any{}
+	}
+	o.lastRun[label] = args
 }
 
 func (o *outcome) absorb(label string, r procResult) {
@@ -255,6 +263,23 @@ func (o *outcome) absorb(label string, r procResult) {
 		_ = os.WriteFile(name, b, 0o644)
 		lastFail, lastWhat = name, "what=data race reported by the Go race detector (see replay file for the report)"
 	}
+	if lastFail == "" {
+		// A panic that escapes a property (rapid reports "[rapid] panic after N tests" with a traceback) or kills the
+		// process: when the innermost non-runtime frames belong to the library under test, the library panicked on a
+		// generated input of this property's domain, which no listed property permits; the report is the replay artefact.
+		// A panic whose innermost frames are the harness's own is a harness defect (exit 2).
+		if rep, lib := libraryPanic(r.out); lib {
+			b, _ := json.MarshalIndent(map[string]any{"property": o.prop, "what": "the library panicked on a generated input", "input": map[string]any{
+				"rapid_panic_report": rep, "run": o.lastRun[label]}}, "", " ")
+			name := filepath.Join(root, "replays", fmt.Sprintf("%s-panic-%s.json", o.prop, strings.ReplaceAll(label, " ", "")))
+			_ = os.WriteFile(name, b, 0o644)
+			first := rep
+			if i := strings.Index(first, "\n"); i > 0 {
+				first = first[:i]
+			}
+			lastFail, lastWhat = name, "what=the library panicked on a generated input: "+strings.TrimSpace(first)
+		}
+	}
 	switch {
 	case lastFail != "":
 		o.violations = append(o.violations, lastFail)
@@ -268,6 +293,41 @@ func (o *outcome) absorb(label string, r procResult) {
 			o.broken = append(o.broken, fmt.Sprintf("%s: exit %d without a violation marker:\n%s", label, r.exit, tail(r.out, 40)))
 		}
 	}
+}
+
+var rePanicHead = regexp.MustCompile(`(?m)^.*(\[rapid\] panic after \d+ tests: .*|^panic: .*|^fatal error: .*)$`)
+
+// libraryPanic extracts a panic report from a test binary's output and says whether the panic originated in the
+// library under test: the first frame that is neither Go runtime, the antlr / protobuf / rapid / testing packages nor a
+// deferred-recover trampoline must lie in github.com/openfga/language (or under VERIF_REPO), not in verif/.
+func libraryPanic(out string) (string, bool) {
+	loc := rePanicHead.FindStringIndex(out)
+	if loc == nil {
+		return "", false
+	}
+	rep := out[loc[0]:]
+	if len(rep) > 8000 {
+		rep = rep[:8000]
+	}
+	repo := repoPath()
+	for _, line := range strings.Split(rep, "\n") {
+		l := strings.TrimSpace(line)
+		isFrame := strings.Contains(l, ".go:")
+		if !isFrame {
+			continue
+		}
+		switch {
+		case strings.Contains(l, "/src/runtime/"), strings.Contains(l, "/src/testing/"), strings.Contains(l, "antlr4-go/antlr"), strings.Contains(l, "google.golang.org/protobuf"),
+			strings.Contains(l, "pgregory.net/rapid"), strings.Contains(l, "/src/reflect/"), strings.Contains(l, "/src/strings/"), strings.Contains(l, "/src/sort/"),
+			strings.Contains(l, "/src/slices/"), strings.Contains(l, "/src/regexp/"), strings.Contains(l, "/src/bytes/"), strings.Contains(l, "/src/unicode/"):
+			continue
+		case strings.Contains(l, "openfga/language/pkg/go"), strings.HasPrefix(l, repo+"/"), strings.Contains(l, " "+repo+"/"), strings.Contains(l, repo+"/pkg/go/"):
+			return rep, true
+		default:
+			return rep, false
+		}
+	}
+	return rep, false
 }
 
 func seedBase() int64 {
@@ -344,6 +404,7 @@ func check(prop, tier string) int {
 					"-test.run", "^Test"+prop+"$", "-test.v", "-test.count=1", "-test.timeout", "0",
 					fmt.Sprintf("-rapid.checks=%d", nChecks), fmt.Sprintf("-rapid.seed=%d", rs), "-rapid.shrinktime=20s", "-rapid.nofailfile")
 				mu.Lock()
+				o.noteRun(fmt.Sprintf("shard %d", s), map[string]any{"tier": tier, "shard": s, "shards": shards, "verif_seed": seed, "rapid_seed": rs, "rapid_checks": nChecks})
 				o.absorb(fmt.Sprintf("shard %d", s), r)
 				if r.exit != 0 || os.Getenv("VERIF_VERBOSE") != "" {
 					fmt.Printf("---- shard %d output (tail) ----\n%s\n", s, tail(r.out, 60))
@@ -440,6 +501,40 @@ func replay(prop, file string) int {
 		return 2
 	}
 	defer os.Remove(bin)
+	// a panic report is replayed by re-running the process that produced it (same shard, seed and case count)
+	if b, err := os.ReadFile(abs); err == nil {
+		var env0 struct {
+			Input struct {
+				Report string         `json:"rapid_panic_report"`
+				Run    map[string]any `json:"run"`
+			} `json:"input"`
+		}
+		if json.Unmarshal(b, &env0) == nil && env0.Input.Report != "" && env0.Input.Run != nil {
+			num := func(k string) int64 {
+				f, _ := env0.Input.Run[k].(float64)
+				return int64(f)
+			}
+			tier, _ := env0.Input.Run["tier"].(string)
+			ctx, cancel := context.WithTimeout(context.Background(), 30*m)
+			defer cancel()
+			r := runProc(ctx, filepath.Join(root, "checks"), env("VERIF_TIER="+tier, fmt.Sprintf("VERIF_SHARD=%d", num("shard")), fmt.Sprintf("VERIF_SHARDS=%d", num("shards")),
+				fmt.Sprintf("VERIF_SEED=%d", num("verif_seed"))), bin,
+				"-test.run", "^Test"+prop+"$", "-test.v", "-test.count=1", "-test.timeout", "0",
+				fmt.Sprintf("-rapid.checks=%d", num("rapid_checks")), fmt.Sprintf("-rapid.seed=%d", num("rapid_seed")), "-rapid.shrinktime=20s", "-rapid.nofailfile")
+			fmt.Println(tail(r.out, 60))
+			o := &outcome{prop: prop, known: map[string]bool{}}
+			o.noteRun("replay", env0.Input.Run)
+			o.absorb("replay", r)
+			if len(o.violations) > 0 {
+				fmt.Printf("VIOLATION property=%s replay=%s %s\n", prop, abs, o.whats[0])
+				return 1
+			}
+			if len(o.broken) > 0 || len(o.harness) > 0 {
+				return 2
+			}
+			return 0
+		}
+	}
 	ctx, cancel := context.WithTimeout(context.Background(), 10*m)
 	defer cancel()
 	r := runProc(ctx, filepath.Join(root, "checks"), env("VERIF_REPLAY="+abs, "VERIF_SHARD=300"), bin,
